@@ -132,9 +132,20 @@ NEEDS = {
     "C17F": "check_validity=True together with a non-None disorder argument",
     "C18E": "a CSV file in which an annotator's rows come in two or more non-contiguous blocks",
     "C18F": "a carriage return inside an annotator or label",
+    # ---- fourth (short) round: one variant each for ten properties
+    "C02G": ">= 4 annotators and an optimal unitary alignment holding two short distant units whose pair costs between 7 and 9 delta_empty, covered by long units of the others",
+    "C03G": "a positional component, a recomputation through compute_disorder, and unit boundaries that are large compared with the durations and not float32-exact",
+    "C05G": "the shuffle sampler with a ground truth that is a strict subset and not the first k annotators in sorted order",
+    "C07G": "a unit with, to its right, a far unit over the cut followed in sorted order by a much longer (or category-matching) unit",
+    "C10G": "an annotator whose leftmost remaining unit is long and reaches past the window limit while a later-starting short unit of it is retained",
+    "C12G": "an alignment with exactly one category containing both a real/real pair and an unaligned unit",
+    "C13G": "two continua with the same annotators and the same flattened unit sequence but different ownership of the units",
+    "C15G": "unit durations of the order of the 1e-6 segment precision",
+    "C16G": ">= 4 ground-truth annotators (the exclusion zone of the third or a later pivot is skipped)",
+    "C19G": "false negatives with 0 < magnitude < 1 on a small reference (an annotator loses every unit)",
 }
 EXTRA_CHECKS = {"C09B": ["C04", "C02"], "C04B": ["C14"], "C10A": ["C01"], "C14B": ["C13"], "C01B": ["C08"], "C08A": ["C01"],
-                "C04D": ["C02", "C07"], "C07C": ["C02"], "C09C": ["C07"], "C09D": ["C02"], "C14D": ["C13"], "C13C": ["C14"], "C18C": ["C13"], "C09E": ["C07", "C02"]}
+                "C04D": ["C02", "C07"], "C07C": ["C02"], "C09C": ["C07"], "C09D": ["C02"], "C14D": ["C13"], "C13C": ["C14"], "C18C": ["C13"], "C09E": ["C07", "C02"], "C03G": ["C04"], "C02G": ["C07"]}
 
 
 def sh(cmd):
